@@ -1064,7 +1064,7 @@ class Shelxfile():
                 try:
                     elcount = num / self.Z
                     formula_weight += elcount * float(weight_from_symbol(el.capitalize()))
-                    formstring += f"{el}{elcount :,g} "
+                    formstring += f"{el}{elcount :.10g} "
                 except ZeroDivisionError:
                     return ''
         self.formula_weight = round(formula_weight, 3)
@@ -1102,7 +1102,7 @@ class Shelxfile():
         formstring = ''
         sumdict = self.sum_formula_exact_as_dict()
         for el in sumdict:
-            formstring += f"{el.capitalize()}{round(sumdict[el], 2):,g} "
+            formstring += f"{el.capitalize()}{round(sumdict[el], 2):.10g} "
         return formstring.strip()
 
     def sum_formula_exact_as_dict(self) -> dict:
